@@ -291,6 +291,14 @@ def finish(R, level, explanation):
         with open(path, 'w') as f:
             json.dump(R.refutation, f, indent=1, default=str)
         R.violations.append(dict(key='bounded:' + str(R.refutation.get('case', ''))[:120], replay=path, replayed=True, what='bounded stand-in'))
+    for g in R.ground:
+        if not g[1]:
+            rdir = os.path.join(HERE, 'replays', R.prop)
+            os.makedirs(rdir, exist_ok=True)
+            path = os.path.join(rdir, 'ground_%s.json' % _safe(g[0])[:80])
+            with open(path, 'w') as f:
+                json.dump(dict(kind='ground obligation over the shipped constants fails', obligation=g[0], failing=str(g[2])[:4000]), f, indent=1)
+            R.violations.append(dict(key='ground:' + g[0][:120], replay=path, replayed=True, what='ground obligation'))
     slow = sorted(R.obligations, key=lambda o: -o.time)[:8]
     R.log('slowest:', [(o.name, round(o.time, 1), o.backend) for o in slow if o.time > 1])
     triage(R)
